@@ -56,7 +56,10 @@ TypedefOK(ev) ==
 Judge(ev) ==
     CASE ev.op \in UOpsT ->
             IF ~UPre(ev.op, ev.i, ev.j, ev.rf, ev.rt, ev.c) THEN "harness-pre"
-            ELSE IF ev.ret = UVal(ev.op, ev.i, ev.j, ev.rt, ev.c) THEN "ok" ELSE ev.op
+            ELSE IF ev.ret = UVal(ev.op, ev.i, ev.j, ev.rt, ev.c) THEN "ok"
+            \* C12 names "conversion to the common type": the target is the common type iff the factor is integral.
+            \* Other (floating-point) implicit conversions are judged too but reported apart (kind note-...).
+            ELSE IF ev.op = "conv" /\ Den(ev.i, ev.j) # <<>> THEN "note-conv-noncommon" ELSE ev.op
       [] ev.op = "conv_ok" -> IF ev.ret = ConvAllowed(ev.i, ev.j, ev.rf, ev.rt) THEN "ok" ELSE "conv-constraint"
       [] ev.op = "conv_missing" -> "conv-constraint"
       [] ev.op = "bin" ->
